@@ -429,6 +429,124 @@ def real_item_text(block):
     return text, src.count('\n', 0, span[0]) + 1
 
 
+def _split_commas(ts):
+    """Split a token list at top-level commas -> list of token lists (empty trailing element dropped)."""
+    from rslex import match_close
+    out, cur, k = [], [], 0
+    while k < len(ts):
+        if ts[k][1] in '([{':
+            e = match_close(ts, k)
+            cur.extend(ts[k:e + 1])
+            k = e + 1
+            continue
+        if ts[k][1] == ',':
+            out.append(cur)
+            cur = []
+        elif ts[k][1] == '|' and cur and False:
+            pass
+        else:
+            cur.append(ts[k])
+        k += 1
+    if cur:
+        out.append(cur)
+    return out
+
+
+def inline_new_helpers(unit, block, text, log=None, depth=0):
+    """A call of a function that is defined in the same source file but is in no unit (a helper that did not exist when the
+    annotated copy was written: "extract function") is replaced by the helper's body, so that the caller can still be verified
+    against its contract:    h(a1, a2)   ->   { let p1: T1 = a1; let p2: T2 = a2; let __ret: R = { BODY }; __ret }
+    Only when this is exactly what a call does: plain `fn` (no generics, no self, no where clause), simple `name: Type` parameters,
+    no `return` / `?` in the body, not recursive, argument count matches.  Arguments are evaluated in order before the body, as
+    in a call.  Everything else is left alone (the unknown callee then makes the unit UNDECIDED as before)."""
+    from rslex import match_close, is_macro_open
+    if depth > 3 or block.get('stub') or block.get('kind') != 'fn':
+        return text
+    known = set(b['name'] for kind, b in unit['segments'] if kind == 'block')
+    path = os.path.join(REPO_SRC, block['file'])
+    try:
+        src = open(path, encoding='utf-8').read()
+    except OSError:
+        return text
+    ts = lex(text)
+    # the body of the item only (the signature is not rewritten)
+    edits = []
+    k = 0
+    while k < len(ts):
+        t = ts[k]
+        if t[0] == 'punct' and t[1] in '([{' and is_macro_open(ts, k):
+            k = match_close(ts, k) + 1
+            continue
+        if (t[0] == 'ident' and k + 1 < len(ts) and ts[k + 1][1] == '(' and (k == 0 or ts[k - 1][1] not in ('.', ':', 'fn', '!'))
+                and t[1] not in known and t[1] not in _KEYWORDS and t[1] != block['name']):
+            try:
+                span = find_item(src, 'fn', t[1])
+            except ValueError:
+                span = None
+            h = _parse_helper(src[span[0]:span[1]], t[1]) if span else None
+            if h:
+                close = match_close(ts, k + 1)
+                args = _split_commas(ts[k + 2:close])
+                if len(args) == len(h['params']):
+                    parts = ['{']
+                    for (pn, pt), a in zip(h['params'], args):
+                        parts.append('let %s: %s = %s;' % (pn, pt, text[a[0][2]:a[-1][3]]))
+                    body = inline_new_helpers(unit, dict(block, name=t[1]), h['body'], log, depth + 1)
+                    if h['ret'] and 'impl' not in h['ret'].split():
+                        parts.append('let __ret: %s = %s; __ret }' % (h['ret'], body))
+                    else:
+                        parts.append('%s }' % body)
+                    edits.append((t[2], ts[close][3], ' '.join(parts)))
+                    if log is not None:
+                        log.append({'kind': 'inline-new-helper', 'old': t[1] + '(..)', 'new': 'the body of fn %s, parameters bound by let' % t[1],
+                                    'why': 'the callee is defined in %s but is in no unit (no contract): its body is verified in place' % block['file']})
+                    k = close + 1
+                    continue
+        k += 1
+    if not edits:
+        return text
+    out, pos = [], 0
+    for a, b, r in edits:
+        out.append(text[pos:a])
+        out.append(r)
+        pos = b
+    out.append(text[pos:])
+    return ''.join(out)
+
+
+def _parse_helper(item, name):
+    from rslex import match_close
+    ts = lex(item)
+    k = next((i for i, t in enumerate(ts) if t[1] == 'fn' and i + 1 < len(ts) and ts[i + 1][1] == name), None)
+    if k is None or any(t[1] in ('unsafe', 'async', 'extern') for t in ts[:k]):
+        return None
+    if ts[k + 2][1] != '(':
+        return None  # generics
+    pe = match_close(ts, k + 2)
+    params = []
+    for p in _split_commas(ts[k + 3:pe]):
+        q = p[1:] if p and p[0][1] == 'mut' else p
+        if len(q) < 3 or q[0][0] != 'ident' or q[1][1] != ':' or q[0][1] == 'self':
+            return None
+        params.append((('mut ' if p[0][1] == 'mut' else '') + q[0][1], item[q[2][2]:q[-1][3]]))
+    j = pe + 1
+    ret = None
+    while j < len(ts) and ts[j][1] != '{':
+        if ts[j][1] == 'where':
+            return None
+        j += 1
+    if j >= len(ts):
+        return None
+    if ts[pe + 1][1] == '-' and ts[pe + 2][1] == '>':
+        ret = item[ts[pe + 3][2]:ts[j - 1][3]]
+    be = match_close(ts, j)
+    body_ts = ts[j + 1:be]
+    for i, t in enumerate(body_ts):
+        if t[1] in ('return', '?') or (t[1] == name and i + 1 < len(body_ts) and body_ts[i + 1][1] == '('):
+            return None
+    return {'params': params, 'ret': ret, 'body': item[ts[j][2]:ts[be][3]]}
+
+
 def _binds_prev(ins_text):
     """When new tokens appeared between the two neighbours of an insertion: does it stay with the token before it?
     Closure contracts (`-> (o: T) ensures .. {`) follow the closure's parameters; closers of ghost-naming wrappers
@@ -767,6 +885,7 @@ def generate(unit_path, out_path, spec_root=None):
         try:
             real, real_line = real_item_text(b)
             nlog = []
+            real = inline_new_helpers(unit, b, real, nlog)
             real = normalise(unit, real, nlog)
         except LostAnchor as e:
             report['lost'].append(str(e))
